@@ -8,7 +8,7 @@ Definition Sx (cpp : bool) (ts : list ptok) (tr : ast) (rk : nat) : Prop :=
   forall f d s rest out n,
     rk <= d -> d <= 15 ->
     n + length ts <= f -> length (ts ++ rest) <= f ->
-    opos (bef s) -> pstart (bef s) ts -> nojux rest -> ND (bef s) (ts ++ rest) ->
+    opos (bef s) -> pstart (bef s) ts -> nojux rest -> safe s ->
     (forall r a, r < rk -> quiet cpp r (rev ts ++ bef s) a rest) ->
     (rk = 14 -> forall a, quiet cpp 14 (rev ts ++ bef s) (S a) rest) ->
     (rk = 1 -> forall a, quiet cpp 1 (rev ts ++ bef s) a rest) ->
@@ -44,7 +44,7 @@ Proof. intros A B [|a r] x y H; [contradiction|reflexivity]. Qed.
 
 (* ---------- atoms *)
 Lemma Sx_atom : forall cpp t,
-  (forall s rest, nojux rest -> ND (bef s) (t :: rest) -> term (s, t :: rest) = Some (mkafter s [t] (L t), rest)) ->
+  (forall s rest, nojux rest -> safe s -> term (s, t :: rest) = Some (mkafter s [t] (L t), rest)) ->
   match snd t with TLB => False | _ => True end ->
   Sx cpp [t] (L t) 0.
 Proof.
@@ -129,7 +129,8 @@ Proof.
     - cbn. split; [reflexivity|discriminate].
     - apply pstart_vac. reflexivity.
     - reflexivity.
-    - unfold s1. cbn [set_bef bef]. apply ND_cons. exact Hnd.
+    - right. unfold s1, fp_head. cbn [set_bef bef hd_is snd is_lp andb].
+      destruct (bef s) as [|p [|p2 b2]]; try reflexivity. destruct Hop as [Hp _]. destruct (snd p); try reflexivity; discriminate.
     - intros r a Hr. apply quiet_closer; [left; reflexivity|lia].
     - intros _ a. apply quiet_closer; [left; reflexivity|lia].
     - intros _ a. apply quiet_closer; [left; reflexivity|lia].
@@ -218,10 +219,7 @@ Proof.
         rewrite bin_opr_not_incdec. discriminate.
       - apply pstart_vac. apply bin_opr_not_incdec.
       - exact Hj.
-      - unfold s1, sa, mkafter. cbn [bef].
-        assert (H := ND_app (ra ++ [op]) (bef s) (rb ++ rest)).
-        rewrite <- app_assoc in H. cbn [app] in H. specialize (H Hnd).
-        rewrite rev_app_distr in H. cbn [rev app] in H. exact H.
+      - right. reflexivity.
       - intros r a0 Hr. unfold s1, sa, mkafter. cbn [bef asgn].
         rewrite <- rev_mid. apply Hq. lia.
       - intros E. lia.
